@@ -72,6 +72,7 @@ def driver_for(prog, inputs, entry='kernel', wrapper=False):
 #     intcast   INT(real expression)
 #     while, select, exitcycle, section   the statements of these names
 #     selneg    SELECT CASE with negative case values / ranges
+#     idxdiv    integer division inside array subscripts
 ALL_FEATURES = ('lb', 'step', 'lvafter', 'boundmod', 'idiv', 'mod', 'intfn', 'sign', 'ipow', 'fndiv', 'conv', 'intcast',
                 'while', 'select', 'exitcycle', 'section')
 
@@ -159,6 +160,21 @@ class TGen(F.Gen):
             for o in (1, -1, 2):
                 if a + o >= lo and b + o <= hi:
                     cands.append(op('sum', V(v), N(o)) if o > 0 else op('sum', V(v), op('neg', N(-o))))
+        if 'idxdiv' in self.f and rng.random() < 0.7:
+            # integer division inside a subscript: (v + c) / q with v + c >= 0 on the whole loop range
+            dc = []
+            for v in self.active_loops:
+                a, b = self.loop_range.get(v, (0, -1))
+                if a > b:
+                    continue
+                for q in (2, 3):
+                    for c in range(-a, -a + 7):
+                        if (a + c) // q >= lo and (b + c) // q <= hi and (b + c) // q > (a + c) // q:
+                            num = V(v) if c == 0 else op('par', op('sum', V(v), N(c)))
+                            dc.append(op('quot', num, N(q)))
+            if dc:
+                self.used.add('idxdiv')
+                return rng.choice(dc)
         if cands and rng.random() < 0.75:
             return rng.choice(cands)
         if 'fndiv' in self.f and rng.random() < 0.5:
@@ -582,7 +598,7 @@ def gen_cases(rng, pools, core, counts, ninputs=3):
             if pool == 'core':
                 prog = g.program(nstmts=rng.randint(3, 7), depth=2)
             else:
-                prog = g.program(nstmts=rng.randint(2, 4), depth=2 if pool in ('step', 'lvafter', 'boundmod', 'exitcycle', 'lb', 'select', 'selneg') else 1)
+                prog = g.program(nstmts=rng.randint(2, 4), depth=2 if pool in ('step', 'lvafter', 'boundmod', 'exitcycle', 'lb', 'select', 'selneg', 'idxdiv') else 1)
             cases.append({'prog': prog, 'inputs': g.inputs(prog, ninputs if pool == 'core' else 2), 'pool': pool})
     return cases
 
